@@ -309,16 +309,17 @@ theorem driver_phases_next (fuel i : Nat) (r : Rule) (body : List Stmt) (rest : 
   simp [runRules, bind, M.bind, hp, hb, hx, pure, M.pure]
 
 /-- the whole program: exit status is reduced modulo 256 and standard output is what the phases printed -/
-theorem driver_phases_run (fuel : Nat) (p : Prog) (files : List File) (stdin : String) (extra : List File)
-    (s : St) (status : Int)
+theorem driver_phases_run (fuel : Nat) (p : Prog) (inv : Invocation) (s : St) (status : Int)
     (h : drive (runActions fuel p.begins)
           (if p.rules.isEmpty && p.ends.isEmpty then pure ()
-           else mainLoop fuel p.rules (totalRecords (initState p files stdin extra).pending + 1))
-          (runActions fuel p.ends) (initState p files stdin extra) = .ok (s, status)) :
-    runWith fuel p files stdin extra =
+           else mainLoop fuel p.rules (totalRecords (initStateInv p inv).pending + 1))
+          (runActions fuel p.ends) (initStateInv p inv) = .ok (s, status))
+    (hf : s.fault = false) :
+    runInv fuel p inv =
       .ok { stdout := s.out, status := (status % 256).toNat, files := s.outFiles } := by
-  simp only [runWith]
+  simp only [runInv]
   rw [h]
+  simp [hf]
 
 /-- non-vacuity of the phase theorems: a BEGIN phase that exits with status 3, a main phase that would print,
 an END phase that prints "e" -/
@@ -330,53 +331,63 @@ example :
 
 /-! ## getline_counters -/
 
+/-- all remaining operands are files (no `var=value` assignment is pending) -/
+def filesOnly (pending : List Pend) : Prop := ∀ p ∈ pending, p.isFile = true
+
 /-- the main-input reader delivers a record: NR grows by one, FNR becomes the record's number within its
-file (old FNR + 1 in the current file, 1 in a newly opened file), and `$0`/fields are untouched -/
-theorem readMain_some (pending : List (String × List String)) :
+file (old FNR + 1 in the current file, 1 in a newly opened file), and `$0`/fields are untouched.  (A pending
+command-line assignment may assign NR, FNR or any variable: see `operand_assignment_when_reached`.) -/
+theorem readMain_some (pending : List Pend) (hp : filesOnly pending) :
     ∀ (isOpen : Bool) (s s' : St) (r : String), readMain pending isOpen s = (some r, s') →
       s'.nr = s.nr + 1 ∧ (s'.fnr = s.fnr + 1 ∨ s'.fnr = 1) ∧ s'.rec0 = s.rec0 ∧ s'.fields = s.fields ∧
       s'.out = s.out ∧ s'.locals = s.locals ∧ s'.globals = s.globals := by
   induction pending with
   | nil => intro isOpen s s' r h; simp [readMain] at h
   | cons p rest ih =>
-    obtain ⟨name, recs⟩ := p
-    intro isOpen s s' r h
-    cases recs with
-    | nil =>
-      simp only [readMain] at h
-      have := ih false _ s' r h
-      cases isOpen <;> simp_all
-    | cons r0 rs =>
-      simp only [readMain] at h
-      cases isOpen <;> simp at h <;> obtain ⟨_, h2⟩ := h <;> subst h2 <;> simp
+    have hrest : filesOnly rest := fun q hq => hp q (by simp [hq])
+    cases p with
+    | assign x v => exact absurd (hp (.assign x v) (by simp)) (by simp [Pend.isFile])
+    | file name recs =>
+      intro isOpen s s' r h
+      cases recs with
+      | nil =>
+        simp only [readMain] at h
+        have := ih hrest false _ s' r h
+        cases isOpen <;> simp_all
+      | cons r0 rs =>
+        simp only [readMain] at h
+        cases isOpen <;> simp at h <;> obtain ⟨_, h2⟩ := h <;> subst h2 <;> simp
 
 /-- at end of input nothing is counted and the record is untouched -/
-theorem readMain_none (pending : List (String × List String)) :
+theorem readMain_none (pending : List Pend) (hp : filesOnly pending) :
     ∀ (isOpen : Bool) (s s' : St), readMain pending isOpen s = (none, s') →
       s'.nr = s.nr ∧ s'.rec0 = s.rec0 ∧ s'.fields = s.fields := by
   induction pending with
   | nil => intro isOpen s s' h; simp [readMain] at h; subst h; simp
   | cons p rest ih =>
-    obtain ⟨name, recs⟩ := p
-    intro isOpen s s' h
-    cases recs with
-    | nil =>
-      simp only [readMain] at h
-      have := ih false _ s' h
-      cases isOpen <;> simp_all
-    | cons r0 rs =>
-      simp only [readMain] at h
-      cases isOpen <;> simp at h
+    have hrest : filesOnly rest := fun q hq => hp q (by simp [hq])
+    cases p with
+    | assign x v => exact absurd (hp (.assign x v) (by simp)) (by simp [Pend.isFile])
+    | file name recs =>
+      intro isOpen s s' h
+      cases recs with
+      | nil =>
+        simp only [readMain] at h
+        have := ih hrest false _ s' h
+        cases isOpen <;> simp_all
+      | cons r0 rs =>
+        simp only [readMain] at h
+        cases isOpen <;> simp at h
 
 /-- within the current file FNR grows by exactly one -/
 theorem readMain_same_file (name : String) (r : String) (rs : List String) (rest) (s : St) :
-    readMain ((name, r :: rs) :: rest) true s =
-      (some r, { s with pending := (name, rs) :: rest, headOpen := true, nr := s.nr + 1, fnr := s.fnr + 1 }) := by
+    readMain (.file name (r :: rs) :: rest) true s =
+      (some r, { s with pending := .file name rs :: rest, headOpen := true, nr := s.nr + 1, fnr := s.fnr + 1 }) := by
   simp [readMain]
 
 /-- **getline_counters (plain `getline`).**  On success NR and FNR are incremented, `$0` is the new record and
 the fields (hence NF) are the new record's fields; at end of input 0 is returned and `$0`, NF, NR are unchanged. -/
-theorem getline_counters_plain (fuel : Nat) (s : St) :
+theorem getline_counters_plain (fuel : Nat) (s : St) (hp : filesOnly s.pending) :
     (∀ r s1 fl, getlineMain s = (some r, s1) → splitBy s1.fs r = some fl →
       eval (fuel + 1) (.getline none none) s =
         .ok (.num 1) { s1 with rec0 := r, rec0num := looksNumeric r, fields := fl.map mkInput } ∧
@@ -386,11 +397,11 @@ theorem getline_counters_plain (fuel : Nat) (s : St) :
       s1.nr = s.nr ∧ s1.rec0 = s.rec0 ∧ s1.fields = s.fields) := by
   constructor
   · intro r s1 fl h hs
-    have hm := readMain_some _ _ _ _ _ h
+    have hm := readMain_some _ hp _ _ _ _ h
     refine ⟨?_, hm.1, hm.2.1⟩
     simp [eval, h, setRecord, setRecordAs, hs, bind, M.bind, pure, M.pure]
   · intro s1 h
-    have hm := readMain_none _ _ _ _ h
+    have hm := readMain_none _ hp _ _ _ h
     refine ⟨?_, hm⟩
     simp [eval, h]
 
@@ -429,17 +440,18 @@ theorem getline_counters_var (fuel : Nat) (x : String) (s s1 : St) (r : String)
     (hl : s.locals.lookup x = none) (hs : ∀ v, writeSpecial x v = none)
     (hu : unsupportedSpecials.contains x = false)
     (harr : ∀ id, s.globals.lookup x ≠ some (.arr id))
+    (hp : filesOnly s.pending)
     (h : getlineMain s = (some r, s1)) :
     ∃ s2, eval (fuel + 2) (.getline (some (.var x)) none) s = .ok (.num 1) s2 ∧
       s2.nr = s.nr + 1 ∧ (s2.fnr = s.fnr + 1 ∨ s2.fnr = 1) ∧ s2.rec0 = s.rec0 ∧ s2.fields = s.fields ∧
       s2.globals = setAssoc x (.val (mkInput r)) s.globals := by
-  have hm := readMain_some _ _ _ _ _ h
+  have hm := readMain_some _ hp _ _ _ _ h
   have hloc : s1.locals = s.locals := hm.2.2.2.2.2.1
   have hglob : s1.globals = s.globals := hm.2.2.2.2.2.2
   have hw := writeVar_global x (mkInput r) s1 (by rw [hloc]; exact hl) (hs _) hu (by rw [hglob]; exact harr)
   refine ⟨{ s1 with globals := setAssoc x (.val (mkInput r)) s1.globals }, ?_, ?_⟩
   · rw [eval]
-    simp [evalLoc, bind, M.bind, pure, M.pure, h, writeLoc, hw]
+    simp [evalLoc, touchLoc, bind, M.bind, pure, M.pure, h, writeLoc, hw]
   · simp [hm.1, hm.2.1, hm.2.2.1, hm.2.2.2.1, hglob]
 
 /-- reading a record of a named file touches no counter and no record state -/
@@ -481,7 +493,7 @@ theorem getline_counters_var_file (fuel : Nat) (fe : Expr) (x : String) (s s0 s1
   refine ⟨?_, hm.1, hm.2.1, hm.2.2.1, hm.2.2.2.1⟩
   rw [eval]
   simp only [bind, M.bind, hf]
-  simp [evalLoc, bind, M.bind, pure, M.pure, h, writeLoc, hw]
+  simp [evalLoc, touchLoc, bind, M.bind, pure, M.pure, h, writeLoc, hw]
 
 /-- a failed open returns -1 and changes nothing -/
 theorem getline_counters_nofile (fuel : Nat) (fe : Expr) (s s0 : St) (fv : Val)
@@ -491,8 +503,8 @@ theorem getline_counters_nofile (fuel : Nat) (fe : Expr) (s s0 : St) (fv : Val)
   simp [bind, M.bind, hf, h]
 
 /-- non-vacuity: the hypotheses of the getline theorems are satisfiable -/
-example : getlineMain { pending := [("f", ["a b", "c"])], headOpen := false } =
-    (some "a b", { pending := [("f", ["c"])], headOpen := true, filename := "f", nr := 1, fnr := 1 }) := by
+example : getlineMain { pending := [.file "f" ["a b", "c"]], headOpen := false } =
+    (some "a b", { pending := [.file "f" ["c"]], headOpen := true, filename := "f", nr := 1, fnr := 1 }) := by
   simp [getlineMain, readMain]
 
 example : readFile "f" { fsys := [], readers := [("f", ["l1", "l2"])] } =
@@ -506,14 +518,95 @@ example : (∀ v, writeSpecial "line" v = none) ∧ readSpecial "line" {} = none
   refine ⟨fun v => by simp [writeSpecial], by simp [readSpecial], by decide, rfl, fun id => by simp⟩
 
 /-- non-vacuity: `getline line` on a two-record file: NR = FNR = 1 afterwards, `$0` untouched, `line` set -/
-example : ∃ s2, eval 2 (.getline (some (.var "line")) none) { pending := [("f", ["a b", "c"])] } = .ok (.num 1) s2 ∧
+example : ∃ s2, eval 2 (.getline (some (.var "line")) none) { pending := [.file "f" ["a b", "c"]] } = .ok (.num 1) s2 ∧
     s2.nr = 1 ∧ s2.rec0 = "" ∧ s2.globals = [("line", .val (mkInput "a b"))] := by
   obtain ⟨s2, h1, h2, _, h4, _, h6⟩ :=
-    getline_counters_var 0 "line" { pending := [("f", ["a b", "c"])] }
-      { pending := [("f", ["c"])], headOpen := true, filename := "f", nr := 1, fnr := 1 } "a b"
+    getline_counters_var 0 "line" { pending := [.file "f" ["a b", "c"]] }
+      { pending := [.file "f" ["c"]], headOpen := true, filename := "f", nr := 1, fnr := 1 } "a b"
       rfl (fun v => by simp [writeSpecial]) (by decide) (fun id => by simp)
+      (by intro p hp; simp at hp; subst hp; rfl)
       (by simp [getlineMain, readMain])
   exact ⟨s2, h1, by simpa using h2, h4, by simpa [setAssoc] using h6⟩
+
+/-! ## command-line assignments (`-v var=value`, `-F fs`, `var=value` operands) -/
+
+theorem toStr_mkInput (v : String) : toStr (mkInput v) = v := by
+  unfold mkInput; split <;> rfl
+
+theorem lookup_setAssoc {β} (x : String) (c : β) (l : List (String × β)) : (setAssoc x c l).lookup x = some c := by
+  induction l with
+  | nil => simp [setAssoc, List.lookup_cons]
+  | cons a t ih =>
+    obtain ⟨k, b⟩ := a
+    simp only [setAssoc]
+    split
+    · simp [List.lookup_cons]
+    · next hne =>
+      have : (x == k) = false := by
+        cases hxk : (x == k) with
+        | false => rfl
+        | true => simp at hxk; subst hxk; simp at hne
+      simp [List.lookup_cons, this, ih]
+
+/-- a command-line assignment to an ordinary variable stores the value — a numeric string when it looks numeric —
+in the GLOBAL variable, whatever function locals are active, and changes nothing else -/
+theorem cmdline_assign_ordinary (x v : String) (s : St)
+    (hs : ∀ w, writeSpecial x w = none) (hu : unsupportedSpecials.contains x = false)
+    (harr : ∀ id, s.globals.lookup x ≠ some (.arr id)) :
+    assignGlobal x v s = { s with globals := setAssoc x (.val (mkInput v)) s.globals } := by
+  have h := writeVar_global x (mkInput v) { s with locals := [] } rfl (hs _) hu harr
+  simp [assignGlobal, h]
+
+/-- a command-line assignment to OFS / FS sets the separator itself (this is the path `hawk -v OFS=:` takes) -/
+theorem cmdline_assign_separators (v : String) (s : St) :
+    assignGlobal "OFS" v s = { s with ofs := v } ∧ assignGlobal "FS" v s = { s with fs := v } := by
+  constructor <;>
+    simp [assignGlobal, writeVar, writeSpecial, unsupportedSpecials, modifyS, toStr_mkInput, List.lookup]
+
+/-- `-v` assignments are carried out in command-line order before the first BEGIN action; `-F` sets FS; the
+`var=value` operands are still pending (not carried out) when BEGIN starts -/
+theorem cmdline_before_begin (p : Prog) (inv : Invocation) :
+    (∀ x v t s, applyVars ((x, v) :: t) s = applyVars t (assignGlobal x v s)) ∧
+    (initStateInv p { inv with vars := [] }).fs = inv.fsOpt.getD " " ∧
+    ((operandFiles inv.operands).isEmpty = false →
+      (initStateInv p { inv with vars := [] }).pending = inv.operands.map operandPend) := by
+  refine ⟨fun _ _ _ _ => rfl, rfl, ?_⟩
+  intro h
+  simp [initStateInv, applyVars, h]
+
+/-- the value of `-v x=v` is what `x` evaluates to in BEGIN -/
+theorem cmdline_v_visible_in_begin (fuel : Nat) (x v : String) (s : St)
+    (hl : s.locals.lookup x = none)
+    (hs : ∀ w, writeSpecial x w = none) (hr : ∀ t, readSpecial x t = none)
+    (hu : unsupportedSpecials.contains x = false)
+    (harr : ∀ id, s.globals.lookup x ≠ some (.arr id)) :
+    eval (fuel + 1) (.var x) (assignGlobal x v s) = .ok (mkInput v) (assignGlobal x v s) := by
+  rw [cmdline_assign_ordinary x v s hs hu harr]
+  have hu' : ¬ x ∈ unsupportedSpecials := by simpa using hu
+  simp [eval, readVar, hl, hr, hu', lookup_setAssoc]
+
+/-- non-vacuity: `awk -v n=7 'BEGIN { … n … }'` — n evaluates to the numeric string 7 in BEGIN -/
+example : eval 1 (.var "n") (assignGlobal "n" "7" {}) = .ok (mkInput "7") (assignGlobal "n" "7" {}) :=
+  cmdline_v_visible_in_begin 0 "n" "7" {} rfl (fun w => by simp [writeSpecial]) (fun t => by simp [readSpecial])
+    (by decide) (fun id => by simp)
+
+/-- a `var=value` operand is carried out exactly when the reader reaches it — after the records of the files before
+it, before the file after it is opened, and before END when it is the last operand -/
+theorem operand_assignment_when_reached (x v : String) (rest : List Pend) (isOpen : Bool) (s : St) :
+    readMain (.assign x v :: rest) isOpen s = readMain rest false (assignGlobal x v s) ∧
+    readMain [.assign x v] isOpen s = (none, { assignGlobal x v s with pending := [], headOpen := false }) := by
+  constructor <;> simp [readMain]
+
+/-- non-vacuity: `awk '…' n=7 f` — the first record of f is delivered with n already set, NR = 1 -/
+example : getlineMain { pending := [.assign "n" "7", .file "f" ["r1"]] } =
+    (some "r1", { globals := [("n", .val (.strnum "7"))], pending := [.file "f" []], headOpen := true,
+                  filename := "f", nr := 1, fnr := 1 }) := by
+  have h : assignGlobal "n" "7" ({ pending := [.assign "n" "7", .file "f" ["r1"]] } : St) =
+      { pending := [.assign "n" "7", .file "f" ["r1"]], globals := [("n", .val (.strnum "7"))] } := by
+    rw [cmdline_assign_ordinary "n" "7" _ (fun w => by simp [writeSpecial]) (by decide) (fun id => by simp)]
+    have : mkInput "7" = .strnum "7" := by decide
+    simp [setAssoc, this]
+  simp [getlineMain, readMain, h]
 
 /-! ## determinism / totality with fuel -/
 
